@@ -18,12 +18,15 @@ VARIANTS = [
     {"name": "fixed(strict)", "findings": []},
 ]
 RULE = ("cases = byte strings: (a) generated UDA collections (context with default '_' prefix, CURIE / absolute-URI ids, all JSON "
-        "value shapes, nested entities, array refs, nulls, duplicate and unknown keys, shuffled key order), (b) grammar mutations of "
-        "those (wrong types for id/deleted/recorded/namespaces/props/refs, unknown keys with object/array values, truncation, "
-        "stray values, trailing data), (c) random byte strings over a JSON-biased alphabet; each through ParseStream or "
-        "ParseTransaction directly and, for the http kind, through the echo handlers POST -> store -> GET -> ParseStream. "
-        "The model runs in Coq on the token stream Go's json.Decoder produced for the same bytes. A case is non-trivial when "
-        "the parser got past the context (at least one entity element or an error/panic inside one); distinct = distinct bodies")
+        "value shapes, nested entities, array refs, nulls, duplicate and unknown keys, shuffled key order), adversarial contexts "
+        "(prefixes beginning with http/https, nsN names colliding with the receiving store's numbering, prefixes equal to key names), "
+        "foreign-hub payloads reusing one textual key as ref key and property key, continuation elements (top level / nested) before "
+        "entities carrying a token key, (b) grammar mutations of those (wrong types for id/deleted/recorded/namespaces/props/refs, "
+        "unknown keys with object/array values, truncation, stray values, trailing data), (c) random byte strings over a JSON-biased "
+        "alphabet; each through ParseStream or ParseTransaction directly and, for the http kind, through the echo handlers "
+        "POST -> store -> GET -> ParseStream. The model runs in Coq on the token stream Go's json.Decoder produced for the same "
+        "bytes; identifiers are compared fully expanded through the store's namespace table. A case is non-trivial when the parser "
+        "got past the context (at least one entity element or an error/panic inside one); distinct = distinct bodies")
 TRUSTED = [
     "encoding/json: bytes -> Decoder.Token stream (the model starts at the tokens the driver lists with Go's own decoder); "
     "Decoder.Decode(&context) = reading one generic JSON value from that token stream; json.Marshal/tokenize is the identity on strings",
